@@ -217,6 +217,10 @@ class PairwiseBasedAlgorithm:
         :return: the list of buckets of the ranking, as sets of elements of the initial dataset
         """
         initial_elements = {str(element): element for element in elements}
+        # a sub-problem whose names are all integer-like holds them as ints: "07" is the element 7 there
+        for element in elements:
+            if element.can_be_int():
+                initial_elements.setdefault(str(int(str(element))), element)
         return [{initial_elements[str(element)] for element in bucket} for bucket in ranking]
 
     @staticmethod
